@@ -28,7 +28,7 @@ from ..x_syncnorm import normalized
 NORM_MODULES = ("tornado/locks.py", "tornado/queues.py", "tornado/gen.py", "tornado/concurrent.py", "tornado/ioloop.py", "tornado/platform/asyncio.py")
 from fractions import Fraction
 from .. import x_tdeval as tdeval
-from ..x_sync import lambda_or_func_body_calls, check_none_tests, resolve_local, own_walk, own_find, node_counts, method_call_on, exit_states, reaches, handler_catches_cancel
+from ..x_sync import resolve_callable_name, lambda_or_func_body_calls, check_none_tests, resolve_local, own_walk, own_find, node_counts, method_call_on, exit_states, reaches, handler_catches_cancel
 
 TECHNIQUE = "who-may-call / wrapper lint on the scheduling entries, handler-structure (exception-escape) rule, guard dominance, exhaustive folding of the delay expression, exit-state typestate of run_sync"
 EXPLANATION = (
@@ -486,6 +486,10 @@ def check_run_sync(ck):
             okd = q.dotted(a0) == tparam
         else:
             okd = isinstance(a0, ast.BinOp) and isinstance(a0.op, ast.Add) and any(method_call_on(p, "self", "time") for p in (a0.left, a0.right)) and any(q.dotted(p) == tparam for p in (a0.left, a0.right))
+        if isinstance(c.args[1], ast.Name) and c.args[1].id not in nested:
+            cbf_ = resolve_callable_name(ck.repo, rs, c.args[1].id)
+            if cbf_ is not None:
+                nested[c.args[1].id] = cbf_
         if not (isinstance(c.args[1], ast.Name) and c.args[1].id in nested):
             raise AnalysisError("%s: timeout callback of run_sync is not a nested function" % rs.site(c))
         ck.ob("C38.run-sync", rs, c, okd, "the deadline is now + timeout")
